@@ -84,6 +84,8 @@ package limit
 //@   inv deps: this.logger != nil && this.rttSampleListener != nil
 
 //@ define vegasMin(l *limit.VegasLimit) *measurements.MinimumMeasurement = as(l.rttNoLoad, "*measurements.MinimumMeasurement")
+//@ define vegasQ(l *limit.VegasLimit, est float64, rtt int64) int = int(ceil(est * (1.0 - vegasBase(l) / float64(rtt))))
+//@ define vegasSmooth(l *limit.VegasLimit, est float64, target float64) float64 = (1.0 - l.smoothing) * est + l.smoothing * max(1.0, min(float64(l.maxLimit), target))
 //@ define vegasBase(l *limit.VegasLimit) float64 = as(l.rttNoLoad, "*measurements.MinimumMeasurement").value
 
 // Field contracts: what a valid configuration promises about the function-valued settings.
@@ -180,6 +182,7 @@ package limit
 //@   ensures[C06] drop_progress: didDrop && old(l.estimatedLimit) >= 2.0 ==> l.estimatedLimit <= old(l.estimatedLimit) - l.smoothing
 //@   ensures[C06] drop_floor: didDrop && old(l.estimatedLimit) < 2.0 ==> l.estimatedLimit < 2.0
 //@   ensures[C07] gate: !didDrop && float64(inFlight) * 2.0 < old(l.estimatedLimit) ==> l.estimatedLimit == old(l.estimatedLimit)
+//@   ensures[C06,C07,C08] update_rule: !didDrop && float64(inFlight) * 2.0 >= old(l.estimatedLimit) ==> l.estimatedLimit == ite(vegasQ(l, old(l.estimatedLimit), rtt) < apply(l.thresholdFunc, "limit.VegasLimit.thresholdFunc", int(old(l.estimatedLimit))), vegasSmooth(l, old(l.estimatedLimit), old(l.estimatedLimit) + float64(apply(l.betaFunc, "limit.VegasLimit.betaFunc", int(old(l.estimatedLimit))))), ite(vegasQ(l, old(l.estimatedLimit), rtt) < apply(l.alphaFunc, "limit.VegasLimit.alphaFunc", int(old(l.estimatedLimit))), vegasSmooth(l, old(l.estimatedLimit), apply(l.increaseFunc, "limit.VegasLimit.increaseFunc", old(l.estimatedLimit))), ite(vegasQ(l, old(l.estimatedLimit), rtt) > apply(l.betaFunc, "limit.VegasLimit.betaFunc", int(old(l.estimatedLimit))), vegasSmooth(l, old(l.estimatedLimit), apply(l.decreaseFunc, "limit.VegasLimit.decreaseFunc", old(l.estimatedLimit))), old(l.estimatedLimit))))
 //@   ensures[C07] growth_at_baseline: !didDrop && float64(inFlight) * 2.0 >= old(l.estimatedLimit) && float64(rtt) == vegasBase(l) ==> l.estimatedLimit == (1.0 - l.smoothing) * old(l.estimatedLimit) + l.smoothing * max(1.0, min(float64(l.maxLimit), old(l.estimatedLimit) + float64(apply(l.betaFunc, "limit.VegasLimit.betaFunc", int(old(l.estimatedLimit))))))
 //@   ensures[C15] baseline_untouched: l.rttNoLoad == old(l.rttNoLoad) && vegasBase(l) == old(vegasBase(l)) && l.probeCount == old(l.probeCount) && l.probeJitter == old(l.probeJitter)
 //@   ensures[C16] notified: int(l.estimatedLimit) != int(old(l.estimatedLimit)) ==> allDelivered(l.listeners, int(l.estimatedLimit))
